@@ -168,8 +168,9 @@ def run(ctx):
     for i in dt_idx:
         c, o = cases[i], obs[i]
         hl = o.get("resl_dtype") in T.DTC
-        dterms.append("{| dtree := %s; ddx := %s; dA := %s; dout := %s; drout := %s; dhas_left := %s |}" %
-                      (T.dsk(c["tree"]), T.DTC[c["dx"]], T.DTC[o["dtype"]], T.DTC[o["res_dtype"]], T.DTC[o["resl_dtype"]] if hl else "F32", "true" if hl else "false"))
+        dterms.append("{| dtree := %s; ddx := %s; dA := %s; dout := %s; drout := %s; dhas_left := %s; ddense := %s |}" %
+                      (T.dsk(c["tree"]), T.DTC[c["dx"]], T.DTC[o["dtype"]], T.DTC[o["res_dtype"]], T.DTC[o["resl_dtype"]] if hl else "F32", "true" if hl else "false",
+                       T.DTC.get(o.get("dense_dtype"), T.DTC[o["dtype"]] if O.has_kind(c["tree"], ("Gen",)) else "I32")))
     dfail = set()
     shard = 400
     jobs = [(f"c01dt_{s0 // shard}", "From Coq Require Import List Bool Arith.\nFrom Core Require Import DtypeTable Dtype CheckDT.\nImport ListNotations.\n"
@@ -194,6 +195,8 @@ def run(ctx):
                 dbad.append(f"A.dtype {o['dtype']} != {want_op}")
             if o["res_dtype"] != want:
                 dbad.append(f"(A@X).dtype {o['res_dtype']} != {want}")
+            if o.get("dense_dtype") != want_op and not O.has_kind(c["tree"], ("Gen",)):
+                dbad.append(f"A.to_dense().dtype {o.get('dense_dtype')} != {want_op}")
             dt_deviates += bool(dbad)
         # a deviation from the promoted dtype that the model reproduces at the probed flags is a recorded finding
         if bad or i in failset or i in dfail:
